@@ -55,6 +55,22 @@ PROPS.update({
                       "deferred/immediate timing rules in process_pdu (iterator chains / Permit plumbing outside Verus' subset).",
         "level_note": VERUS_NOTE,
     },
+    "C14": {
+        "title": "The file checksum is the CCSDS modular checksum, however the data is read",
+        "verus": [("checksum", ["O-C14-"])],
+        "native": [{"prog": "checksum_bounded", "quick": ["search", "11"], "thorough": ["search", "16"], "obligation": "O-C14-reader-N",
+                    "fn": "FileChecksum::checksum", "file": "cfdp-core/src/filestore.rs",
+                    "bound": "content length 0..=N (N=11 quick, 16 thorough) x every split into read sizes; buffer-boundary lengths x 11 read schedules"}],
+        "level": "other",
+        "technique": "deductive verification (Verus/Z3) of the checksum accumulator + bounded exhaustive native check of the BufReader loop under short reads",
+        "design_ref": "DESIGN.md 4/C14",
+        "level_text": "Proof + bounded: the accumulator the checksum loop feeds (ModularChecksum::new/absorb/finish, extracted from filestore.rs) is "
+                      "proved for chunks of ANY lengths and any content: finish() after absorbing c1,c2,.. = the 32-bit wrapping sum of the big-endian words "
+                      "of the zero-padded concatenation (unbounded). That FileChecksum::checksum feeds it exactly the reader's bytes, in order, once "
+                      "(BufReader fill_buf/consume loop over a generic Read+Seek, outside Verus' subset) is checked BOUNDED by exhaustive enumeration: every "
+                      "content length 0..=N with every split into read sizes, plus lengths around the 8 KiB buffer boundary; Null checksum = 0.",
+        "level_note": VERUS_NOTE + "u32::from_be_bytes contract assumed via a wrapper (declared rewrite). The bounded part is labelled bounded and not counted as proved.",
+    },
     "C17": {
         "title": "Limit faults fire after exactly the configured expirations; set handler runs",
         "verus": [("timer", ["O-C17-"]), ("send", ["O-C17-"]), ("recv", ["O-C17-"])],
